@@ -115,6 +115,27 @@ class Collector:
             self.count('floor_checks')
 
 
+class _NoGrammar:
+    """Stands in for the grammar model when it could not be built: every use raises Unrecognised, so
+    grammar-based rules answer ANALYSIS-ERROR while the other rules of the property still run."""
+    def __init__(self, why: str):
+        object.__setattr__(self, '_why', why)
+
+    def __getattr__(self, name):
+        raise Unrecognised('grammar model unavailable: ' + object.__getattribute__(self, '_why'))
+
+
+def acquire_grammar(ctx, col: 'Collector', rule: str):
+    try:
+        return ctx.grammar
+    except (AnchorMissing, Unrecognised) as e:
+        col.unk(rule, 'grammar-model', f'the grammar could not be evaluated: {e}', node=getattr(e, 'node', None))
+        return _NoGrammar(str(e))
+    except Exception as e:  # analyser bug
+        col.unk(rule, 'grammar-model', f'grammar evaluation crashed: {type(e).__name__}: {e}')
+        return _NoGrammar(str(e))
+
+
 def guarded(col: Collector, rule: str, construct: str, fn: Callable[[], None]):
     """Run one rule body; map AnchorMissing/Unrecognised/any crash to UNRECOGNISED."""
     try:
